@@ -300,8 +300,12 @@ def check_distribution(case):
     if basis is None:
         cls, members = None, [list(ref.perms(k)) for k in range(n + 1)]
     else:
-        cls = Av([Perm(b) for b in basis])
-        members = [ref.av([tuple(b) for b in basis], k) for k in range(n + 1)]
+        # classes are whatever Av accepts: classical and mesh bases (whose levels may be empty
+        # and non-empty again - a mesh class is not closed downwards)
+        from .c02 import _to_lib, _to_ref
+
+        cls = Av([_to_lib(b) for b in basis])
+        members = [ref.av([_to_ref(b) for b in basis], k) for k in range(n + 1)]
 
     def dist(tables_fn):
         res = []
@@ -327,7 +331,8 @@ def check_distribution(case):
         if name in S.F6_MODEL and got_up == dist(S.F6_MODEL[name]):
             return KNOWN("F6", "distribution", detail)
         return BAD("distribution", detail)
-    return OK(n >= 3 and any(len(d) > 1 for d in want), "distribution")
+    gap = any(not members[k] and any(members[k + 1 :]) for k in range(n + 1))
+    return OK(n >= 3 and any(len(d) > 1 for d in want), "distribution", *(["class_with_empty_level_below_nonempty"] if gap else []))
 
 
 def check_equidistribution(case):
@@ -437,6 +442,17 @@ def bijection_cases(draw):
 @st.composite
 def distribution_cases(draw):
     basis = None if draw(st.integers(0, 3)) == 0 else [list(p) for p in draw(st.lists(gen.perms(2, 4), min_size=1, max_size=3))]
+    if basis is not None and draw(st.integers(0, 2)) == 0:
+        # mesh classes; fully shaded patterns are contained only in their own underlying permutation,
+        # so every permutation of one small length can be excluded while longer ones remain
+        kind = draw(st.sampled_from(["full", "full", "random"]))
+        if kind == "full":
+            k = draw(st.integers(1, 2))
+            basis = [[list(q), [[x, y] for x in range(k + 1) for y in range(k + 1)]] for q in ref.perms(k)]
+            if draw(st.booleans()):
+                basis.append(list(draw(gen.perms(3, 4))))
+        else:
+            basis = [draw(gen.mesh_patterns(1, 3)) for _ in range(draw(st.integers(1, 2)))]
     idx = draw(st.integers(0, 31))
     n = draw(st.integers(0, 5 if idx != 20 else 4))
     return {"basis": basis, "n": n, "stat": idx}
